@@ -276,6 +276,8 @@ func c13Str(r *rng, id string) {
 	defer snd.m.Shutdown()
 	rc := c
 	rc.name = "R"
+	// a receiver without a user Delegate gets streams that carry user state / user messages all the same
+	rc.noDel = r.chance(1, 3)
 	rcv, err := newCnode(rc)
 	if err != nil {
 		return
@@ -350,6 +352,7 @@ func c13Str(r *rng, id string) {
 	for cut := 0; cut < len(data); cut++ {
 		run("cut", cut, append([]byte(nil), data[:cut]...), false)
 	}
+	run("whole", len(data), append([]byte(nil), data...), true)
 	for i := 0; i < 60 && len(data) > 0; i++ {
 		off := r.intn(len(data))
 		mut := append([]byte(nil), data...)
